@@ -2,6 +2,7 @@ import GrinVerif.Drv.Common
 import GrinVerif.Model.Pool
 import GrinVerif.Model.PoolNode
 import GrinVerif.Model.PoolTime
+import GrinVerif.Model.PoolConvert
 /-! Driver glue for the `pool` domain (C14): the harness describes outputs, transactions, the
 head state and every pool operation; the model recomputes verdicts and pool contents, and
 evaluates the property's specification (`jointlyValidB`, `mineVerdict`) on its own state. -/
@@ -18,6 +19,8 @@ structure St where
   /-- run `poolrelay`: the peer objects and the epoch's current relay (by id) -/
   rpeers : List RPeer := []
   rcur : Option Nat := none
+  /-- the relay was chosen at random among these (several candidates): resolved by the next `rcur` line -/
+  rpending : List Nat := []
   /-- the transaction the model's last submission / eviction removed from the txpool (`evicted` lines) -/
   lastEvicted : Option Tx := none
 
@@ -183,6 +186,13 @@ def handle (st : St) (args : List String) (impl : String) : St × Verdict :=
         ({ st with pool := p, lastEvicted := victim }, cmpSubmit (showRes r) impl)
       | none => (st, .unknown)
     | _, _, _, _ => (st, .unknown)
+  | ["stored", t] =>
+    -- the stored input vector of an admitted transaction (`convert_tx_v2`): looked-up features
+    match (idOf t).bind (fun i => st.txs.find? (·.1 == i)) with
+    | some (_, tx) =>
+      let m := showList ((sortNat tx.ins).map fun i => s!"{if featureOf st.ctx i then 1 else 0}:o{i}")
+      (st, cmpModel m impl)
+    | none => (st, .unknown)
   | ["obs"] => (st, cmpModel (showObs st) impl)
   | ["mine_weight", _] =>
     -- The weight of the aggregate of the set offered for mining.  The property fixes an upper
@@ -286,16 +296,35 @@ def handle (st : St) (args : List String) (impl : String) : St × Verdict :=
     | some (_, tx), some src, some stem, some se, some al =>
       match subTxOf st.ctx tx ((kv rest "form").getD "v3") with
       | some sub =>
-        let (acc, cur') := stemTxAcceptedR (se == "1") (al == "1") src st.rcur st.rpeers 0
+        -- the random choice among SEVERAL candidates is not computed: the specification is "any outbound,
+        -- unbanned member" - the set stays pending until the socket that received the frame is reported
+        let asks := se == "1" || (src.isPushed && al == "1")
+        let cands := (st.rpeers.filter fun p => p.member && p.outbound && !p.banned).map (·.id)
+        let keeps := match st.rcur.bind (peerById st.rpeers) with | some p => !p.banned | none => false
+        let pend : List Nat :=
+          if st.rpending != [] then st.rpending else if asks && !keeps && cands.length > 1 then cands else []
+        let (acc, cur') :=
+          if pend != [] then
+            ((!asks) || pend.all (fun i => match peerById st.rpeers i with | some p => p.alive | none => false), none)
+          else stemTxAcceptedR (se == "1") (al == "1") src st.rcur st.rpeers 0
         let (p, r) := st.pool.submit st.ctx src sub (stem == "1") acc
         let (p', r') := st.pool.submit st.ctx src sub (stem == "1") (!acc)
         let reached := p != p' || r != r'
-        ({ st with pool := p, rcur := if reached then cur' else st.rcur }, cmpSubmit (showRes r) impl)
+        ({ st with pool := p, rcur := if reached then cur' else st.rcur,
+                   rpending := if reached || st.rpending != [] then pend else [] }, cmpSubmit (showRes r) impl)
       | none => (st, .unknown)
     | _, _, _, _, _ => (st, .unknown)
   | ["rcur"] =>
     -- which peer received the last stem transaction (observed on the sockets of the fake peers)
-    (st, cmpModel (match st.rcur with | some i => s!"p{i}" | none => "none") impl)
+    if st.rpending != [] then
+      -- specification: ANY of the candidates (`chosen_relay_is_outbound_member_unbanned`,
+      -- `every_candidate_can_be_chosen`); the observed one becomes the relay
+      match (idOf impl) with
+      | some k =>
+        if st.rpending.contains k then ({ st with rcur := some k, rpending := [] }, .ok)
+        else (st, .fail s!"one of {showIds "p" st.rpending}")
+      | none => (st, .fail s!"one of {showIds "p" st.rpending}")
+    else (st, cmpModel (match st.rcur with | some i => s!"p{i}" | none => "none") impl)
   -- the clock-dependent glue (Model/PoolTime.lean); clock readings in milliseconds
   | "dcfg" :: rest =>
     match kvNat rest "epoch", kvNat rest "embargo", kvNat rest "agg", kvNat rest "prob", kv rest "always" with
@@ -315,11 +344,13 @@ def handle (st : St) (args : List String) (impl : String) : St × Verdict :=
       let hi := st.tep.nextEpoch st.dcfg now 99 none
       -- `next_epoch` also chooses the relay among the outbound connected peers (run `poolrelay`
       -- keeps at most one candidate; no peers: none)
-      let rc := chooseRelay st.rpeers 0
+      let cands := (st.rpeers.filter fun p => p.member && p.outbound && !p.banned).map (·.id)
+      let rc := if cands.length > 1 then none else chooseRelay st.rpeers 0
+      let pend := if cands.length > 1 then cands else []
       if lo.isStem == hi.isStem then
-        ({ st with tep := lo, rcur := rc }, cmpModel s!"stem={if lo.isStem then 1 else 0}" impl)
+        ({ st with tep := lo, rcur := rc, rpending := pend }, cmpModel s!"stem={if lo.isStem then 1 else 0}" impl)
       else
-        ({ st with tep := { lo with isStem := impl == "stem=1" }, rcur := rc }, .ok)
+        ({ st with tep := { lo with isStem := impl == "stem=1" }, rcur := rc, rpending := pend }, .ok)
     | none => (st, .unknown)
   | "tfluff_phase" :: rest =>
     match kvInt rest "now", (kv rest "ats").bind (parseClock st) with
